@@ -694,6 +694,17 @@ func (b *builder) defaultValue(fl *Field) {
 		}
 	case "bytes":
 		s := pick(b, []string{"", "abc", "\x00\x01\xff", "q\"'\\", "\n\r\t", "7\x078", "a\x7fb~ \x80", "\x1f\x20\x7e\x7f"}, "defbytes")
+		if b.pct(50, "defbytes-random") {
+			// 1-6 bytes from every class the escaper distinguishes, in any order (so that each class also comes
+			// first, alone and last)
+			alphabet := []byte{'a', '7', ' ', '~', '?', '\'', '"', '\\', '\n', '\r', '\t', 0x00, 0x01, 0x1f, 0x7f, 0x80, 0xff}
+			n := 1 + Uniform(b.t, 6, "defbytes-len")
+			bs := make([]byte, n)
+			for i := range bs {
+				bs[i] = pick(b, alphabet, "defbyte")
+			}
+			s = string(bs)
+		}
 		fl.Default, fl.DefaultDesc = quote(s), "bytes:"+s
 		if s == "" {
 			fl.Default = `""`
